@@ -330,6 +330,49 @@ impl<'tcx> Ex<'tcx> {
                     }
                 } else {
                     v.push(("ptr", J::B(true)));
+                    // `&CONST` of a field-less enum or an integer (e.g. `x == RingType::InnerRing`): read the pointee
+                    if let (ty::Ref(_, inner, _), rustc_middle::mir::interpret::Scalar::Ptr(ptr, _)) = (cty.kind(), sc) {
+                        let (prov, off) = ptr.prov_and_relative_offset();
+                        if let Some(rustc_middle::mir::interpret::GlobalAlloc::Memory(alloc)) =
+                            tcx.try_get_global_alloc(prov.alloc_id())
+                        {
+                            if let Ok(layout) = tcx.layout_of(tenv.as_query_input(*inner)) {
+                                let sz = layout.size.bytes() as usize;
+                                let ofs = off.bytes() as usize;
+                                let a = alloc.inner();
+                                if sz > 0 && sz <= 16 && ofs + sz <= a.len() {
+                                    let bytes = a.inspect_with_uninit_and_ptr_outside_interpreter(ofs..ofs + sz);
+                                    let mut val: u128 = 0;
+                                    for (i, b) in bytes.iter().enumerate() {
+                                        val |= (*b as u128) << (8 * i);
+                                    }
+                                    match inner.kind() {
+                                        ty::Adt(def, _) if def.is_enum() && def.variants().iter().all(|x| x.fields.is_empty()) => {
+                                            for (vi, d) in def.discriminants(tcx) {
+                                                let mask: u128 = if sz >= 16 { u128::MAX } else { (1u128 << (8 * sz)) - 1 };
+                                                if d.val & mask == val {
+                                                    v.push((
+                                                        "ref_enum",
+                                                        o(vec![
+                                                            ("adt", s(tcx.def_path_str(def.did()))),
+                                                            ("variant", s(def.variant(vi).name.as_str())),
+                                                            ("vi", n(vi.index())),
+                                                        ]),
+                                                    ));
+                                                }
+                                            }
+                                        }
+                                        ty::Int(_) => {
+                                            let size = rustc_abi::Size::from_bytes(sz as u64);
+                                            v.push(("ref_int", s(format!("{}", size.sign_extend(val) as i128))));
+                                        }
+                                        ty::Uint(_) => v.push(("ref_int", s(format!("{}", val)))),
+                                        _ => {}
+                                    }
+                                }
+                            }
+                        }
+                    }
                 }
             }
             Ok(Ok(ConstValue::ZeroSized)) => v.push(("zst", J::B(true))),
